@@ -87,6 +87,33 @@ def hash_then_open_c_comment(out):
     return False
 
 
+def public_readers(ck, text, out_c, dumps):
+    """mappyfile.open / load / loads with include_comments=True keep the comments the worker objects keep"""
+    import io
+    import mappyfile
+    fn = os.path.join(common.VERIF, "build", "c14_open.%d.map" % os.getpid())
+    os.makedirs(os.path.dirname(fn), exist_ok=True)
+    with open(fn, "w", encoding="utf-8", newline="") as f:
+        f.write(text)
+    try:
+        got = {"open": dumps(mappyfile.open(fn, expand_includes=False, include_comments=True)),
+               "load": dumps(mappyfile.load(io.StringIO(text), expand_includes=False, include_comments=True)),
+               "loads": dumps(mappyfile.loads(text, expand_includes=False, include_comments=True))}
+    except Exception as ex:  # noqa: BLE001
+        ck.violation("C14|public-reader-raised|%s" % type(ex).__name__, "a public reader raised %s with include_comments=True" % type(ex).__name__, {"text": text})
+        return
+    finally:
+        try:
+            os.unlink(fn)
+        except OSError:
+            pass
+    ck.count(3)
+    for name, out in got.items():
+        if out != out_c:
+            ck.violation("C14|public-reader-differs|%s" % name, "mappyfile.%s(..., include_comments=True) does not keep the comments that the parser / transformer objects keep" % name,
+                         {"text": text, "printed": out, "expected": out_c})
+
+
 class SecondDumpDiffers(Exception):
     pass
 
@@ -149,6 +176,8 @@ def run(tier):
         records.append(rec)
         meta[rec["tid"]] = (text, out_c, cms)
         ck.nontrivial([hist[:-1], cms])
+        if j % (60 if quick else 25) == 0:
+            public_readers(ck, text, out_c, dumps)
     # a key-value block as the root object (the root opener is item 0 of the spec: comments above it are claimed)
     k = 0
     for t in ("metadata", "validation", "connectionoptions"):
